@@ -185,6 +185,7 @@ pub fn record(output: &str) {
         let near_limits = !asym && !plate_case && !selfc && tries % 12 == 3;
         let modes: Vec<&str> = if near_limits { vec!["plain", "plain", "plain", "plain", "plain", "plain", "plain", "stop-before", "stop-during"] }
                                else { vec!["plain", "stop-before", "stop-during", "stop-before-again", "nowhere-plain", "nowhere-stop-before"] };
+        let mut first_path: Option<Vec<Joints>> = None;
         for mode in modes {
             // (the last two: a relocation to where the robot already is)
             let goal = if mode.starts_with("nowhere") { start } else { goal };
@@ -214,9 +215,44 @@ pub fn record(output: &str) {
                         json!({"q": au6(q), "collides": kws.collides(q), "step_milli": ((d / (3.0 * planner.step_size_joint_space)) * 1000.0).round() as i64})
                     }).collect();
                     e["nodes"] = json!(nodes);
+                    if first_path.is_none() && goal != start && path.len() >= 3 { first_path = Some(path.clone()); }
                 }
             }
             out.put(e);
+        }
+        // the same relocation asked again after the cell changed: a box where the flange was at the middle node of the
+        // first path (pushed into the public environment list), and a planner with a finer step - the path returned now
+        // has to be free in the cell as it is now and spaced by the step given now
+        if let Some(p1) = first_path {
+            let midq = p1[p1.len() / 2];
+            let tcp = case.kws.kinematics.forward(&midq).translation.vector;
+            let b = crate::scene::WBox { c: [tcp.x, tcp.y, tcp.z], h: [0.06, 0.06, 0.06] };
+            let pose = nalgebra::Isometry3::identity();
+            let mut case = case;
+            case.kws.body.collision_environment.push(rs_opw_kinematics::collisions::CollisionBody { mesh: crate::scene::local_mesh(&b, false, &pose), pose: pose.cast() });
+            let kws = &case.kws;
+            if !kws.collides(&start) && !kws.collides(&goal) {
+                let planner = RRTPlanner { step_size_joint_space: planner.step_size_joint_space / 4.0, max_try: 2000, debug: false };
+                let stop = Arc::new(AtomicBool::new(false));
+                let res = guarded(|| planner.plan_rrt(&start, &goal, kws, &stop));
+                let mut e = json!({"ev": "rrtplan", "mode": "plain", "replanned": true, "step_au": rad2au(planner.step_size_joint_space), "max_try": planner.max_try,
+                    "start": au6(&start), "goal": au6(&goal), "from": au6(&case.from), "to": au6(&case.to), "case": made, "ctor": case.ctor, "empty_cell": false, "nowhere": false});
+                match res {
+                    None => { e["outcome"] = json!("panic"); e["nodes"] = json!([]); }
+                    Some(Err(msg)) => { e["outcome"] = json!("err"); e["msg"] = json!(msg); e["nodes"] = json!([]); }
+                    Some(Ok(path)) => {
+                        e["outcome"] = json!("path");
+                        e["first_exact"] = json!(path.first().map(|p| p == &start).unwrap_or(false));
+                        e["last_exact"] = json!(path.last().map(|p| p == &goal).unwrap_or(false));
+                        let nodes: Vec<Value> = path.iter().enumerate().map(|(i, q)| {
+                            let d = if i == 0 { 0.0 } else { (0..6).map(|j| (q[j] - path[i - 1][j]).powi(2)).sum::<f64>().sqrt() };
+                            json!({"q": au6(q), "collides": kws.collides(q), "step_milli": ((d / (3.0 * planner.step_size_joint_space)) * 1000.0).round() as i64})
+                        }).collect();
+                        e["nodes"] = json!(nodes);
+                    }
+                }
+                out.put(e);
+            }
         }
     }
     out.finish();
@@ -244,6 +280,37 @@ pub fn replay_wrap_sampling(output: &str) {
             // (nothing is demanded of the nodes: C13 speaks of non-wrapping limits only - the planner moves in R^6 and
             //  may join 190 and 175 degrees the long way round)
             Some(Ok(_)) => { nontrivial += 1; }
+            Some(Err(_)) => {}
+        }
+    }
+    // two robots whose (ordinary, non-wrapping) J1 ranges lie on opposite sides plan one after the other, start and goal
+    // of the second a fraction of a planner step inside the end of its range that faces the other robot's: with checking
+    // off every node lies between points of the robot's own ranges, so it is inside them - provided the planner samples
+    // the ranges of the robot it was given
+    for k in 0..(if thorough() { 60 } else { 12 }) {
+        let mut a = shape::make_case_with(&mut r, 2 * k, 0, false, Some((-2.9, -2.0)), &[]);
+        let mut b = shape::make_case_with(&mut r, 2 * k + 1, 0, false, Some((2.0, 2.9)), &[]);
+        a.kws.body.safety.mode = rs_opw_kinematics::collisions::CheckMode::NoCheck;
+        b.kws.body.safety.mode = rs_opw_kinematics::collisions::CheckMode::NoCheck;
+        let planner = RRTPlanner { step_size_joint_space: [12.0f64, 6.0, 3.0][k % 3].to_radians(), max_try: 200, debug: false };
+        let stop = Arc::new(AtomicBool::new(false));
+        let pick = |r: &mut rand::rngs::StdRng, c: &shape::ShapeCase, j1: f64| -> Joints { std::array::from_fn(|i| if i == 0 { j1 } else { r.gen_range(c.from[i] * 0.6..c.to[i] * 0.6) }) };
+        let (sa, ga) = (pick(&mut r, &a, -2.5), pick(&mut r, &a, -2.2));
+        let _ = guarded(|| planner.plan_rrt(&sa, &ga, &a.kws, &stop));
+        // (every second pair starts next to the other end of the range, so that it does not matter on which side the
+        //  robots that planned earlier in this process have their ranges)
+        let (j1s, j1g) = if k % 2 == 0 { (2.0 + r.gen_range(0.002..0.02), 2.0 + r.gen_range(0.002..0.02)) } else { (2.9 - r.gen_range(0.002..0.02), 2.9 - r.gen_range(0.002..0.02)) };
+        let (sb, gb) = (pick(&mut r, &b, j1s), pick(&mut r, &b, j1g));
+        evals += 1;
+        match guarded(|| planner.plan_rrt(&sb, &gb, &b.kws, &stop)) {
+            None => out.put(json!({"sig": "sampler:planning-panics", "detail": format!("start {:?} goal {:?}", sb, gb)})),
+            Some(Ok(path)) => {
+                nontrivial += 1;
+                if std::env::var("VERIF_LOUD").is_ok() { eprintln!("B path J1: {:?} limits {} {}", path.iter().map(|q| q[0]).collect::<Vec<_>>(), b.from[0], b.to[0]); }
+                if let Some(q) = path.iter().find(|q| (0..6).any(|i| q[i] < b.from[i] - 1e-9 || q[i] > b.to[i] + 1e-9)) {
+                    out.put(json!({"sig": "sampler:planner-node-outside-the-ranges-of-its-own-robot", "detail": format!("node {:?}; ranges {:?} .. {:?}; the robot that planned just before has J1 in -2.9 .. -2.0", q, b.from, b.to)}));
+                }
+            }
             Some(Err(_)) => {}
         }
     }
